@@ -5,7 +5,7 @@ case  := reg '|' method '|' path '|' query '|' ae '|' deps
 reg   := 'z' ('0'|'1') (';' proc)*          proc := 'T' | 'G' | 'Ge' (empty graph) | 'D' | 'L:' hex | 'R:' hex ':' v4min ':' v6min | 'M:' hex ':' ('0'|'1')
 hex   := 'x' (two hex digits)*              query, ae := hex | '-'
 deps  := '-' | dep (' ' dep)*               dep := 'p:' hex '=' ('e' | '4.' len | '6.' len) | 'a:' hex '=' bit
-                                                 | 'c:' hex '=' bit | 'f:' hex '=' ('m'|'o'|'i')
+                                                 | 'c:' hex '=' bit   (bit := '0' | '1' | 'p' = the parser itself panics) | 'f:' hex '=' ('m'|'o'|'i')
 -/
 open Rotonda.Http
 
@@ -51,9 +51,12 @@ def parseReg (s : String) : Option Registry :=
 
 structure DepTab where
   p : List (Bytes × PfxRes) := []
-  a : List (Bytes × Bool) := []
-  c : List (Bytes × Bool) := []
+  a : List (Bytes × PRes) := []
+  c : List (Bytes × PRes) := []
   f : List (Bytes × FsRes) := []
+
+def parsePRes (r : String) : Option PRes :=
+  if r == "1" then some .ok else if r == "0" then some .err else if r == "p" then some .panic else none
 
 def parseDep (t : DepTab) (s : String) : Option DepTab :=
   match s.splitOn "=" with
@@ -67,8 +70,8 @@ def parseDep (t : DepTab) (s : String) : Option DepTab :=
         | ["6", l] => do some (PfxRes.ok false (← l.toNat?))
         | _ => none)
       some { t with p := (k, v) :: t.p }
-    | ["a", h] => do some { t with a := ((← parseHex h), r == "1") :: t.a }
-    | ["c", h] => do some { t with c := ((← parseHex h), r == "1") :: t.c }
+    | ["a", h] => do some { t with a := ((← parseHex h), (← parsePRes r)) :: t.a }
+    | ["c", h] => do some { t with c := ((← parseHex h), (← parsePRes r)) :: t.c }
     | ["f", h] => do
       let k ← parseHex h
       let v ← (if r == "m" then some FsRes.missing else if r == "o" then some FsRes.outside
@@ -85,8 +88,8 @@ def lookupD {β} (k : Bytes) (dflt : β) : List (Bytes × β) → β
     (the case is run with both settings: a difference means a needed entry is missing). -/
 def mkDeps (t : DepTab) (alt : Bool) : Deps where
   pfx k := lookupD k (if alt then .ok true 24 else .err) t.p
-  asn k := lookupD k alt t.a
-  community k := lookupD k alt t.c
+  asn k := lookupD k (if alt then .ok else .err) t.a
+  community k := lookupD k (if alt then .ok else .err) t.c
   fs k := lookupD k (if alt then .inside else .missing) t.f
 
 def showOutcome : Outcome → String
@@ -97,6 +100,7 @@ def showOutcome : Outcome → String
   | .panic .aeToStr => "panic ## site=accept-encoding-to-str"
   | .panic .graphSplitAt => "panic ## site=graph-traces-split-at"
   | .panic .graphEmpty => "panic ## site=graph-empty-layout"
+  | .panic .depFromStr => "panic ## site=dependency-from-str"
 
 def words (s : String) : List String := (s.splitOn " ").filter (· ≠ "")
 
@@ -123,5 +127,6 @@ def main (args : List String) : IO Unit := do
   let v : Variant := {
     aeUnwrap := !args.contains "ae=repaired",
     graphSplit := !args.contains "graph=repaired",
-    graphEmpty := !args.contains "graphempty=repaired" }
+    graphEmpty := !args.contains "graphempty=repaired",
+    depPanic := !args.contains "deppanic=repaired" }
   loop v (← IO.getStdin) (← IO.getStdout)
